@@ -127,6 +127,31 @@ theorem inv_resumeWorker (f : Nat) (p : Pool) (w : Nat) (h : Inv11 p) : Inv11 (r
               · apply ih; exact inv_finish (p := { p with tasks := q', cancelTasks := p.cancelTasks.filter (· != t) }) h _ _
               · exact ih _ (inv_setWorker_same (x := x) h w _ hx rfl)
 
+theorem inv_leave' {p : Pool} (h : Inv11 p) (w : Nat) (x x' : Worker) (hx : p.workers[w]? = some x) (hal : x.alive = true)
+    (hd : x'.alive = false) (q : Pool) (hw : q.workers = p.workers) (hr : q.running = p.running - 1) :
+    Inv11 (setWorker q w x') := by
+  unfold Inv11 countAlive setWorker at *
+  simp only
+  have := countP_set_flip (·.alive) p.workers w x x' hx hal hd
+  rw [hw, hr]; omega
+
+/-- dropping a parked worker on a cancel request gives its slot back: the count stays exact -/
+theorem inv_dropParked {p : Pool} (h : Inv11 p) (w : Nat) : Inv11 (dropParked p w) := by
+  unfold dropParked
+  simp only
+  split
+  · exact h
+  · rename_i x hx
+    split
+    · exact h
+    · rename_i hal
+      have hal' : x.alive = true := by simpa using hal
+      have h1 := inv_leave' h w x { x with alive := false, task := none, rest := [] } hx hal' rfl
+        { p with cancelCos := p.cancelCos.filter (· != w), dropped := w :: p.dropped, running := p.running - 1 } rfl rfl
+      split
+      · apply inv_tryGrow; apply inv_finish; exact h1
+      · exact inv_tryGrow h1
+
 theorem inv_wake (f : Nat) (p : Pool) (h : Inv11 p) : Inv11 (wake f p) := by
   induction f generalizing p with
   | zero => exact h
@@ -147,7 +172,7 @@ theorem inv_schedLoop (f : Nat) (p : Pool) (h : Inv11 p) : Inv11 (schedLoop f p)
     split
     · exact hw
     · split
-      · apply ih; exact hw
+      · apply ih; apply inv_dropParked; exact hw
       · apply ih; exact inv_resumeWorker _ _ _ hw
 
 theorem inv_pass {p p' : Pool} (h : Inv11 p) (hp : pass p = some p') : Inv11 p' := by
@@ -210,6 +235,17 @@ theorem wake_state (f : Nat) (p : Pool) : (wake f p).state = p.state := by
   | zero => rfl
   | succ f ih => unfold wake; split; rfl; rw [ih]
 
+theorem dropParked_state (p : Pool) (w : Nat) : (dropParked p w).state = p.state := by
+  unfold dropParked
+  simp only
+  split
+  · rfl
+  · split
+    · rfl
+    · split
+      · rw [tryGrow_state, finish_state]; rfl
+      · rw [tryGrow_state]; rfl
+
 theorem schedLoop_state (f : Nat) (p : Pool) : (schedLoop f p).state = p.state := by
   induction f generalizing p with
   | zero => rfl
@@ -219,7 +255,7 @@ theorem schedLoop_state (f : Nat) (p : Pool) : (schedLoop f p).state = p.state :
     split
     · exact wake_state _ _
     · split
-      · rw [ih]; exact wake_state _ _
+      · rw [ih, dropParked_state]; exact wake_state _ _
       · rw [ih, resumeWorker_state]; exact wake_state _ _
 
 theorem doClean_state (p : Pool) : (doClean p).state = p.state := by
